@@ -115,7 +115,7 @@ Definition hc_fill_flush_alloc (h : hc) (now_ms : N) : Z :=
 Definition hc_step (h : hc) (now_ms : N) : res hc :=
   let rtt_ms := opt_default INITIAL_RTT_ESTIMATE_MS (sr_rtt_ms (h_src h)) in
   let rto_ms := opt_default INITIAL_RTO_ESTIMATE_MS (sr_rto_ms (h_src h)) in
-  do q1 <- fq_forget_frames (h_fq h) (now_ms - rtt_ms * 4) (sr_rtt_ms (h_src h));
+  do q1 <- fq_forget_frames (h_fq h) (now_ms - N.max (rtt_ms * 4) rto_ms) (sr_rtt_ms (h_src h));
   let credit := hc_fill_flush_alloc h now_ms in
   let flush_id := add32 (h_flush_id h) 1 in
   let '(q2, fb) := fq_get_feedback q1 now_ms in
